@@ -53,6 +53,16 @@ INTER2 = ('Well Drilling and Completion Capital Cost', 'Injection Well Drilling 
           'Well Drilling and Completion Capital Cost Adjustment Factor',
           'Injection Well Drilling and Completion Capital Cost Adjustment Factor')
 DEPTHS = ['0.3', '0.499', '0.5', '3', '7', '7.001', '10']
+# a component given directly together with its adjustment factor (the figure wins), and together with a user total (the total wins)
+COMPONENTS = [('Reservoir Stimulation Capital Cost', '2'), ('Surface Plant Capital Cost', '30'), ('Field Gathering System Capital Cost', '1.5'),
+              ('Exploration Capital Cost', '4'), ('Wellfield O&M Cost', '0.4'), ('Surface Plant O&M Cost', '0.9'), ('Water Cost', '0.05')]
+OVERRIDE_COMBOS = []
+for _n, _v in COMPONENTS:
+    for _f in ('2.5', '0'):
+        OVERRIDE_COMBOS.append({_n: _v, _n + ' Adjustment Factor': _f})
+    OVERRIDE_COMBOS.append({_n: _v, ('Total O&M Cost' if 'O&M' in _n or _n == 'Water Cost' else 'Total Capital Cost'): '3' if ('O&M' in _n or _n == 'Water Cost') else '50'})
+OVERRIDE_COMBOS.append({_n: _v for _n, _v in COMPONENTS})
+OVERRIDE_COMBOS.append({**{_n: _v for _n, _v in COMPONENTS}, **{_n + ' Adjustment Factor': '2.5' for _n, _v in COMPONENTS}})
 
 
 def alphabets(fam):
@@ -90,6 +100,9 @@ def plan(tier, seed):
                 if (em == 2 and pair[1] in (1, 9, 5, 7)) or tier == 'thorough':
                     for ch in e1.deviations(inter, 2):
                         P.append({'fam': fam, 'changes': ch})
+                if r == 4:
+                    for ch in OVERRIDE_COMBOS:
+                        P.append({'fam': fam, 'changes': dict(ch)})
                 inter2 = {k: al[k][:2] for k in INTER2}
                 if (em == 3 and pair[1] in (2, 6)) or tier == 'thorough':
                     for ch in e1.deviations(inter2, 2):
@@ -113,14 +126,14 @@ def plan(tier, seed):
                     c3['All-in Vertical Drilling Costs'] = '1846'
                     P.append({'fam': fam, 'changes': c3})
     # closed-loop (SBT) well field: vertical sections + laterals + junction legs, every correlation, cased / uncased, section counts
-    for fam in F.sbt_grid(econs=(1, 2, 3) if tier == 'thorough' else (3,), pairs=((1, 2), (2, 9), (31, 1))):
+    for fam in F.sbt_grid(econs=(1, 2, 3) if tier == 'thorough' else (3,)):
         P.append({'fam': fam, 'changes': {}, 'base': True})
         al = alphabets(fam)
         for ch in e1.deviations(al, 1):
             P.append({'fam': fam, 'changes': ch})
-        for ch in SBT_STRUCT:
+        for ch in SBT_STRUCT + OVERRIDE_COMBOS:
             P.append({'fam': fam, 'changes': dict(ch)})
-        if fam['enduse'] == 1:
+        if (fam['enduse'], fam['plant']) == (1, 2):
             for corr in range(1, 18):
                 for nsec in ('1', '2', '3') if tier == 'thorough' or corr in (3, 10, 5) else ('2',):
                     for cased in ('False', 'True'):
